@@ -1,6 +1,6 @@
 // High level formatting functions.
 
-use std::collections::HashMap;
+use std::collections::BTreeMap;
 use std::io::{self, Write};
 use std::time::{Duration, Instant};
 
@@ -367,7 +367,8 @@ impl FormattingError {
     }
 }
 
-pub(crate) type FormatErrorMap = HashMap<FileName, Vec<FormattingError>>;
+// Ordered by file name, so that a report prints the same way on every run.
+pub(crate) type FormatErrorMap = BTreeMap<FileName, Vec<FormattingError>>;
 
 #[derive(Default, Debug, PartialEq)]
 pub(crate) struct ReportedErrors {
